@@ -89,10 +89,16 @@ def mode : P XmlText.Mode := do
   | "attr" => pure .canonAttr
   | _ => failure
 
-/-- `xmlesc <mode> <string>` -/
+/-- `xmlesc <mode> <string>`; `attrcr` / `textcr` are the library's writer (etree mode + `crEscaper`) -/
 def runEsc : P String := do
-  let m ← mode; let s ← str
-  pure ("ok " ++ encStr (String.ofList (XmlText.escape m s.toList)))
+  let t ← tok; let s ← str
+  match t with
+  | "normal" => pure ("ok " ++ encStr (String.ofList (XmlText.escape .normal s.toList)))
+  | "text" => pure ("ok " ++ encStr (String.ofList (XmlText.escape .canonText s.toList)))
+  | "attr" => pure ("ok " ++ encStr (String.ofList (XmlText.escape .canonAttr s.toList)))
+  | "attrcr" => pure ("ok " ++ encStr (String.ofList (XmlText.crReplace (XmlText.escape .normal s.toList))))
+  | "textcr" => pure ("ok " ++ encStr (String.ofList (XmlText.crReplace (XmlText.escape .canonText s.toList))))
+  | _ => failure
 
 def renderScan (o : Outcome (List Char × List Char)) : String :=
   match o with
